@@ -247,7 +247,7 @@ def search(pid, ctx, props, impl, disagreements, tables, seed, cases=()):
                 failures.append({"line": d["line"], "extra": d["extra"], "klass": d["klass"], "what": r, "impl": d["impl"], "oracle": d["oracle"]})
     if failures:
         return failures, n
-    if pid == "C13" and disagreements:
+    if disagreements and all(d["line"].split()[0] in ("msg", "parse", "helpers", "names", "setattr", "crc") for d in disagreements[:40]):
         # history dependence: the same op in a fresh interpreter must give the same answer
         import subprocess
         for d in disagreements[:40]:
@@ -263,8 +263,8 @@ def search(pid, ctx, props, impl, disagreements, tables, seed, cases=()):
                     if c["line"] == d["line"]:
                         break
                 failures.append({"line": d["line"], "extra": dict(d["extra"], history=hist), "klass": d["klass"], "impl": d["impl"], "oracle": None,
-                                 "what": "parse result depends on history: after the ops generated by cases_C13(seed=%d) this op gives a different result than in a fresh interpreter (%s ... vs %s ...)" % (
-                                     seed, d["impl"][:60], fresh[:60])})
+                                 "what": "result depends on history: after the ops generated by cases_%s(seed=%d) this op gives a different result than in a fresh interpreter (%s ... vs %s ...)" % (
+                                     pid, seed, d["impl"][:60], fresh[:60])})
                 return failures, n
     # 2. the generators again with other seeds and the thorough budget
     t0 = time.time()
